@@ -1,5 +1,22 @@
 package vh
 
-import "fmt"
+import (
+	"fmt"
+	"time"
+)
 
 func sprintf(format string, args ...interface{}) string { return fmt.Sprintf(format, args...) }
+
+// Within runs f in its own goroutine and waits at most d for it; it reports
+// whether f returned.  Used for calls into the code under test that must
+// never be allowed to hang the harness (e.g. Client.Close).
+func Within(d time.Duration, f func()) bool {
+	ch := make(chan struct{})
+	go func() { f(); close(ch) }()
+	select {
+	case <-ch:
+		return true
+	case <-time.After(d):
+		return false
+	}
+}
